@@ -135,15 +135,24 @@ func (d *Driver[V, H, A]) listen(ctx context.Context) error {
 				if !ok {
 					return nil
 				}
+				if isSyncPseudoSender(p.Sender) {
+					continue
+				}
 				actions = d.stateMachine.ProcessProposal(p)
 			case p, ok := <-d.listeners.PrevoteListener.Listen():
 				if !ok {
 					return nil
 				}
+				if isSyncPseudoSender(p.Sender) {
+					continue
+				}
 				actions = d.stateMachine.ProcessPrevote(p)
 			case p, ok := <-d.listeners.PrecommitListener.Listen():
 				if !ok {
 					return nil
+				}
+				if isSyncPseudoSender(p.Sender) {
+					continue
 				}
 				actions = d.stateMachine.ProcessPrecommit(p)
 			case p, ok := <-d.syncListener:
@@ -167,6 +176,15 @@ func (d *Driver[V, H, A]) listen(ctx context.Context) error {
 
 		d.syncCurrentHeight(ctx)
 	}
+}
+
+// isSyncPseudoSender reports whether a message claims to come from the pseudo-sender that
+// consensus/sync uses for the precommit it fabricates for a block obtained by block sync. That
+// address carries quorum voting power, and it is only legitimate on the sync path (ProcessSync):
+// a gossiped message carrying it must never reach the state machine, otherwise any peer can make
+// a validator commit any proposed value with a single precommit.
+func isSyncPseudoSender[A types.Addr](sender A) bool {
+	return [4]uint64(sender) == [4]uint64(consensusSync.SyncProtocolPrecommitSender)
 }
 
 // This function executes the actions returned by the stateMachine.
